@@ -24,7 +24,7 @@ from vp.env import install
 from tornado import iostream
 from tornado.ioloop import IOLoop
 
-from harness._iostream_rig import FD, FakeFdStream, Kernel, fire, registered
+from harness._iostream_rig import BA, FD, MV, FakeFdStream, Kernel, fire, registered
 
 PAT = bytes((i * 7 + 1) % 251 for i in range(8192))     # every window of 2 bytes is position-unique
 
@@ -75,7 +75,7 @@ def h_buf(ops: List[int]):
     """ops: symbolic op codes, see _decode"""
     sb = iostream._StreamBuffer()
     sb._large_buf_threshold = P.THR
-    model = bytearray()
+    model = BA()
     off = 0
 
     def check_head():
@@ -100,9 +100,9 @@ def h_buf(ops: List[int]):
             if k == 0:
                 sb.append(piece)
             elif k == 1:
-                sb.append(memoryview(piece))
+                sb.append(MV(piece))
             else:
-                sb.append(bytearray(piece))
+                sb.append(BA(piece))
             model += piece
         elif k == 3:
             if n <= 0:
@@ -124,7 +124,7 @@ def h_buf(ops: List[int]):
             del model[:n]
         check_head()
     # drain everything the way _handle_write does: content and order must be the model's
-    out = bytearray()
+    out = BA()
     guard = 0
     while len(sb) > 0:
         v = sb.peek(len(sb))
@@ -149,7 +149,7 @@ def _drive_writes(ops, wscript, mw, thr):
         s = FakeFdStream(k, max_write_buffer_size=mw)
         if thr is not None:
             s._write_buffer._large_buf_threshold = thr
-        expected = bytearray()       # concatenation of accepted writes
+        expected = BA()       # concatenation of accepted writes
         ends = []                    # end offset of each accepted write
         futs = []
         order = []                   # resolution order observed through done-callbacks
@@ -183,7 +183,7 @@ def _drive_writes(ops, wscript, mw, thr):
                 over = mw is not None and size > 0 and pending + size > mw
                 snap = (s._total_write_index, s._total_write_done_index, len(s._write_buffer),
                         len(s._write_futures), len(k.sent), k.wcalls, len(env.v.ready))
-                data = piece if kind == 0 else memoryview(piece)
+                data = piece if kind == 0 else MV(piece)
                 try:
                     f = s.write(data)
                     raised = None
